@@ -375,6 +375,9 @@ func merrLine(errs []match.MatcherError) string {
 	return "ora doc merr " + strings.Join(parts, ";")
 }
 
+type namedString string
+type namedBytes []byte
+
 // goValue builds the Go value passed for input form "v"
 func goValue(form string, doc []byte) any {
 	switch form {
@@ -383,6 +386,13 @@ func goValue(form string, doc []byte) any {
 	case "vraw":
 		// a Go value that carries pre-encoded JSON: it must be validated like any other value
 		return json.RawMessage(append([]byte(nil), doc...))
+	case "vnstr":
+		// a value of a NAMED string type (type Status string): a Go value like any other, marshalled to a
+		// JSON / YAML string whatever its content looks like
+		return namedString(doc)
+	case "vnbytes":
+		// a value of a named byte-slice type (type Body []byte, net.IP): marshalled, not taken as a document
+		return namedBytes(append([]byte{}, doc...))
 	}
 	var v any
 	if err := json.Unmarshal(doc, &v); err != nil {
